@@ -52,6 +52,20 @@ def deductive(rep: Report, prop: str, funcs: list[str], contracts_mod: str, incl
             if not relevant:
                 continue
             n_rel += 1
+            if ob.verdict == "failed" and ob.model and len(rep.replays) < 12:
+                from . import replay as _rp
+
+                info = _rp.replay_obligation(ob, contracts_mod)
+                if not info.get("replayed") and sum(1 for v in rep.replays.values() if v.get("api_witness_tried")) < 2:
+                    info["api_witness_tried"] = True
+                    try:
+                        w = _rp.api_witness(prop, q)
+                    except Exception:  # noqa: BLE001
+                        w = None
+                    if w:
+                        info["api_witness"] = w
+                        info["replayed"] = True
+                rep.replays[f"{prop}/{ob.oid}"] = info
             rep.obs.append(Ob(oid=f"{prop}/{ob.oid}", kind=ob.kind, func=q, backend="pyvc", verdict=ob.verdict,
                               seconds=ob.seconds, solver=ob.solver, model=ob.model, info=ob.info, smt2=ob.smt2,
                               line=ob.line, bearing=not aux))
